@@ -51,7 +51,11 @@ pub fn check_case(ctx: &mut Ctx, c: &Case) {
         stream.extend_from_slice(f);
     }
     // the stream may end in an incomplete frame: chunks may cover less than the whole stream
+    // one case in three runs with a tracing subscriber that enables and formats everything: what is
+    // returned does not depend on whether anybody listens
+    let with_sub = (c.salt as usize + c.frames.len() + c.chunks.len()) % 3 == 0;
     let r = guard(|| {
+        let body = || {
         let mut tb = TcpBuffer::new();
         let mut pushed = 0usize; // bytes pushed so far
         let mut consumed = 0usize; // bytes of complete frames returned so far (model)
@@ -102,7 +106,16 @@ pub fn check_case(ctx: &mut Ctx, c: &Case) {
             }
         }
         (problem, next, pushed, consumed)
+        };
+        if with_sub {
+            crate::trace_sub::with_subscriber(body)
+        } else {
+            body()
+        }
     });
+    if with_sub {
+        ctx.count("cases-under-a-tracing-subscriber");
+    }
     match r {
         Err(p) => ctx.violation("C14", "no-panic", "TcpBuffer", "", w, "Some or None".into(), format!("panic: {} at {}", p.msg, p.loc)),
         Ok((Some((assertion, exp, obs)), ..)) => ctx.violation("C14", &assertion, "TcpBuffer::pull_data", "", w, exp, obs),
